@@ -155,8 +155,9 @@ def _eq_hash(ctx, rep):
         if (eq is None) != (hs is None):
             rep.violated("eq-hash", c + "::eq/hash pair", tm.where(cls), "only one of __eq__/__hash__ is defined")
             continue
-        src_eq = {norm(a) for a in ast.walk(eq) if isinstance(a, ast.Attribute) and a.attr == "_attrs"}
-        src_h = {norm(a) for a in ast.walk(hs) if isinstance(a, ast.Attribute) and a.attr == "_attrs"}
+        eq_fns, hs_fns = _with_self_helpers(tm, cname, eq), _with_self_helpers(tm, cname, hs)
+        src_eq = {norm(a) for g_ in eq_fns for a in ast.walk(g_) if isinstance(a, ast.Attribute) and a.attr == "_attrs"}
+        src_h = {norm(a) for g_ in hs_fns for a in ast.walk(g_) if isinstance(a, ast.Attribute) and a.attr == "_attrs"}
         ok = bool(src_eq) and src_eq == src_h
         rep.add("eq-hash", c + "::same attribute list", tm.where(eq), ok,
                 "" if ok else "__eq__ reads {} and __hash__ reads {}".format(sorted(src_eq), sorted(src_h)))
@@ -167,10 +168,11 @@ def _eq_hash(ctx, rep):
                 "" if ok_t else "__eq__ does not compare the dynamic types" +
                 (" (isinstance admits subclasses of a different kind)" if isinst else ""))
         # the hash is a function of the current field values: nothing memoised on the instance
-        stores = [n for n in ast.walk(hs) if isinstance(n, ast.Attribute) and isinstance(n.ctx, ast.Store)]
-        other_reads = sorted({n.attr for n in ast.walk(hs) if isinstance(n, ast.Attribute)
+        helper_names = {getattr(g_, "name", "") for g_ in hs_fns}
+        stores = [n for g_ in hs_fns for n in ast.walk(g_) if isinstance(n, ast.Attribute) and isinstance(n.ctx, ast.Store)]
+        other_reads = sorted({n.attr for g_ in hs_fns for n in ast.walk(g_) if isinstance(n, ast.Attribute)
                               and isinstance(n.ctx, ast.Load) and norm(n.value) == "self"
-                              and n.attr not in ("_attrs", "__class__")})
+                              and n.attr not in ("_attrs", "__class__") and n.attr not in helper_names})
         pure = not stores and not other_reads
         rep.add("eq-hash", c + "::hash computed from the current fields", tm.where(hs), pure,
                 "" if pure else ("__hash__ stores {} on the instance: a later field change or a copy made in "
@@ -179,6 +181,25 @@ def _eq_hash(ctx, rep):
         # every attribute compared with ==, all of them: decided on the abstract interpretation
         # of __eq__ on two instances with unknown field values (below, per resolution class)
         _eq_semantics(ctx, rep, tm, cname, eq)
+
+
+def _with_self_helpers(tm, cname, fn):
+    """fn and the methods of the class (or of a base class in the module) it calls on self,
+    transitively: equality and hashing may walk the attributes through one shared helper"""
+    out, todo = [], [fn]
+    classes = [cname] + [norm(b) for b in tm.classes[cname].bases] if cname in tm.classes else [cname]
+    while todo:
+        g = todo.pop()
+        if any(g is x for x in out):
+            continue
+        out.append(g)
+        for n in ast.walk(g):
+            if isinstance(n, ast.Attribute) and isinstance(n.value, ast.Name) and n.value.id == "self":
+                for c_ in classes:
+                    h = tm.funcs.get(c_ + "." + n.attr)
+                    if h is not None and not any(h is x for x in out):
+                        todo.append(h)
+    return out
 
 
 def _abstract_instance(ip, tm, st, cname, tag):
